@@ -437,7 +437,6 @@ fn oracle_converter(ctx: &mut Ctx, desc: &str, files: &[UnitsFile], c: &Converte
     let units: Vec<&Unit> = c.all_units().collect();
     let mut owner: HashMap<&str, usize> = HashMap::new();
     for (i, u) in units.iter().enumerate() {
-        if all_keys(u).next().is_none() { fail(ctx, format!("unit {i} has no name, symbol or alias"), "unit-without-key"); }
         for k in all_keys(u) {
             match c.find_unit(k) {
                 None => fail(ctx, format!("key {k:?} of unit {i} does not resolve"), "key-unresolved"),
